@@ -279,12 +279,23 @@ func (ck *checker) lookups(rng *lib.Rng, nHashes int) []getCase {
 			}
 		}
 		hd := &V{K: "Hash"}
-		es := make([]*types.HashEntry, len(ks))
 		for p, k := range ks {
 			hd.Vs = append(hd.Vs, items[k].d, vInt(int64(p)))
-			es[p] = types.WrapHashEntry(items[k].d.build(ck.p.c), types.WrapInteger(int64(p)))
 		}
-		h := types.WrapHash(es)
+		// two hashes in three are made by a construction route other than WrapHash
+		if r.Chance(2, 3) {
+			hd.R = hashRoutes[r.Intn(len(hashRoutes))]
+			if !hd.routeApplicable() {
+				hd.R = ""
+			}
+		}
+		var h *types.Hash
+		if fault, err := guarded(func() { h = hd.build(ck.p.c).(*types.Hash) }); fault != "" || err != "" {
+			ck.res.Count("skipped.route-rejected.lookup@" + hd.R)
+			hd.R = ""
+			h = hd.build(ck.p.c).(*types.Hash)
+		}
+		ck.res.Count("lookup.hash-route." + hd.R)
 		for qi, q := range items {
 			if !q.keyOK || !q.d.clean() {
 				continue
@@ -487,4 +498,207 @@ func (ck *checker) uniques(rng *lib.Rng, n int) []uniqueCase {
 		}
 	}
 	return cases
+}
+
+// ---------------------------------------------------------------- a Hash and its own entries
+
+// hashesIn collects the Hash values inside a value (the value itself, elements, keys, values)
+func hashesIn(v px.Value, into []*types.Hash) []*types.Hash {
+	switch v := v.(type) {
+	case *types.Hash:
+		into = append(into, v)
+		v.EachPair(func(k, e px.Value) { into = hashesIn(k, into); into = hashesIn(e, into) })
+	case *types.Array:
+		v.Each(func(e px.Value) { into = hashesIn(e, into) })
+	case *types.HashEntry:
+		into = hashesIn(v.Key(), into)
+		into = hashesIn(v.Value(), into)
+	case *types.Sensitive:
+		into = hashesIn(v.Unwrap(), into)
+	}
+	return into
+}
+
+func keyOf(v px.Value) (k string, ok bool) {
+	fault, err := guarded(func() { k = string(px.ToKey(v)) })
+	return k, fault == "" && err == ""
+}
+
+// ownEntries: "a Hash finds a key if and only if it contains an equal key", stated on the hash itself, however
+// it was made: every key that the hash lists (EachPair) is found, with the value of its own entry (the keys of
+// a pool hash are pairwise unequal); a probe that is equal to no listed key is not found; the hash is equal,
+// whichever operand receives the call, to itself and to the hash wrapped around the entries it lists, and has
+// the same hash key.  what says which hash of the description it is.
+func (ck *checker) ownEntries(h *types.Hash, d *V, what string) {
+	type kv struct{ k, v px.Value }
+	var es []kv
+	if fault, err := guarded(func() { h.EachPair(func(k, v px.Value) { es = append(es, kv{k, v}) }) }); fault != "" || err != "" {
+		ck.violate("fault", fmt.Sprintf("%s of %s: EachPair panics: %s%s", what, d, fault, err), d)
+		return
+	}
+	for i, e := range es {
+		var got px.Value
+		var ok, inc bool
+		fault, err := guarded(func() {
+			got, ok = h.Get(e.k)
+			inc = h.IncludesKey(e.k)
+		})
+		ck.res.Evaluations++
+		switch {
+		case fault != "" || err != "":
+			ck.violate("own-entries", fmt.Sprintf("%s of %s lists the key %s (entry %d) but Get of that key panics: %s%s", what, d, e.k, i, fault, err), d)
+		case !ok || !inc:
+			ck.violate("own-entries", fmt.Sprintf("%s of %s lists the key %s (entry %d) but does not find it: Get found=%v, IncludesKey=%v", what, d, e.k, i, ok, inc), d)
+		default:
+			kg, okg := keyOf(got)
+			kw, okw := keyOf(e.v)
+			if !sameValue(got, e.v) && !(okg && okw && kg == kw) {
+				ck.violate("own-entries", fmt.Sprintf("%s of %s: Get(%s) returns %s, the entry with that key (entry %d) holds %s", what, d, e.k, got, i, e.v), d)
+			}
+		}
+	}
+	// probes that may or may not be keys of the hash: found iff a listed key equals the probe
+	for _, q := range []px.Value{types.WrapString(junkText), types.WrapInteger(987654321), types.WrapString("a"), types.WrapInteger(1), types.WrapUndef()} {
+		ref := false
+		for _, e := range es {
+			guarded(func() { ref = ref || (e.k.Equals(q, nil) && q.Equals(e.k, nil)) })
+		}
+		var ok, inc bool
+		fault, err := guarded(func() {
+			_, ok = h.Get(q)
+			inc = h.IncludesKey(q)
+		})
+		ck.res.Evaluations++
+		if fault != "" || err != "" {
+			ck.violate("own-entries", fmt.Sprintf("%s of %s: Get(%s) panics: %s%s", what, d, q, fault, err), d)
+		} else if ok != ref || inc != ref {
+			ck.violate("own-entries", fmt.Sprintf("%s of %s: Get(%s) found=%v, IncludesKey=%v, but a listed key equal to it exists: %v", what, d, q, ok, inc, ref), d)
+		}
+	}
+	// the hash wrapped around the listed entries
+	cp := make([]*types.HashEntry, len(es))
+	for i, e := range es {
+		cp[i] = types.WrapHashEntry(e.k, e.v)
+	}
+	direct := types.WrapHash(cp)
+	clean := d.clean()
+	for _, t := range []struct {
+		name string
+		x, y px.Value
+	}{{"h.Equals(h)", h, h}, {"h.Equals(WrapHash(entries of h))", h, direct}, {"WrapHash(entries of h).Equals(h)", direct, h}} {
+		var e bool
+		fault, err := guarded(func() { e = t.x.Equals(t.y, nil) })
+		ck.res.Evaluations++
+		if fault != "" || err != "" {
+			ck.violate("own-entries", fmt.Sprintf("%s of %s: %s panics: %s%s", what, d, t.name, fault, err), d)
+		} else if clean && !e {
+			ck.violate("own-entries", fmt.Sprintf("%s of %s: %s = false", what, d, t.name), d)
+		}
+	}
+	if kh, ok := keyOf(h); ok {
+		if kd, okd := keyOf(direct); !okd || kd != kh {
+			ck.violate("own-entries", fmt.Sprintf("%s of %s: the hash key %q differs from the key %q of the hash wrapped around its entries", what, d, kh, kd), d)
+		}
+	}
+}
+
+// ownEntriesOfPool applies ownEntries to every Hash inside every pool value, on the fresh copy and on the
+// copy whose caches have been forced
+func (ck *checker) ownEntriesOfPool() {
+	n := 0
+	for _, it := range ck.p.items {
+		if !it.d.any(func(x *V) bool { return x.K == "Hash" }, func(*T) bool { return false }) {
+			continue
+		}
+		for ci, v := range []px.Value{it.a, it.b} {
+			for hi, h := range hashesIn(v, nil) {
+				ck.ownEntries(h, it.d, fmt.Sprintf("hash %d (copy %d)", hi, ci))
+				n++
+			}
+		}
+		if it.d.hasRoute() {
+			ck.res.Nontrivial("own-entries " + it.text)
+		}
+	}
+	ck.res.Extra["own_entries_hashes"] = n
+}
+
+// ---------------------------------------------------------------- values derived from a pool value
+
+// derivedOfPool: the values that the operations of a container derive from it share its storage (the backing
+// slice of the elements or entries, the receiver's index).  For x and every derived value d: Equals gives the same
+// answer in both directions and - NaN and Sensitive excepted - x equals d exactly when they have the same hash key.
+func (ck *checker) derivedOfPool() {
+	junk := px.Value(types.WrapString(junkText))
+	stale := px.Value(types.WrapString("stale"))
+	n := 0
+	for _, it := range ck.p.items {
+		type der struct {
+			name string
+			f    func() px.Value
+		}
+		var ds []der
+		switch x := it.a.(type) {
+		case *types.Array:
+			ln := x.Len()
+			ds = []der{{"x.Slice(0,len)", func() px.Value { return x.Slice(0, ln) }},
+				{"x.Add(junk)", func() px.Value { return x.Add(junk) }},
+				{"x.Add(junk).Slice(0,len)", func() px.Value { return x.Add(junk).Slice(0, ln) }},
+				{"x.Unique()", func() px.Value { return x.Unique() }},
+				{"x.AddAll([])", func() px.Value { return x.AddAll(types.WrapValues([]px.Value{})) }}}
+			if ln > 0 {
+				ds = append(ds, der{"x.Slice(0,len-1)", func() px.Value { return x.Slice(0, ln-1) }},
+					der{"x.Slice(1,len)", func() px.Value { return x.Slice(1, ln) }},
+					der{"x.Slice(0,len-1).Add(junk)", func() px.Value { return x.Slice(0, ln-1).Add(junk) }})
+			}
+		case *types.Hash:
+			ln := x.Len()
+			ds = []der{{"x.Slice(0,len)", func() px.Value { return x.Slice(0, ln) }},
+				{"x.Merge({})", func() px.Value { return x.Merge(types.WrapHash([]*types.HashEntry{})) }},
+				{"x.Merge({junk=>stale})", func() px.Value { return x.Merge(types.WrapHash([]*types.HashEntry{types.WrapHashEntry(junk, stale)})) }},
+				{"x.Merge({junk=>stale}).Delete(junk)", func() px.Value {
+					return x.Merge(types.WrapHash([]*types.HashEntry{types.WrapHashEntry(junk, stale)})).(*types.Hash).Delete(junk)
+				}},
+				{"x.Delete(junk)", func() px.Value { return x.Delete(junk) }}}
+			if ln > 0 {
+				ds = append(ds, der{"x.Slice(0,len-1)", func() px.Value { return x.Slice(0, ln-1) }},
+					der{"x.Delete(first key)", func() px.Value { return x.Delete(x.At(0).(*types.HashEntry).Key()) }},
+					der{"x.Merge({first key=>stale})", func() px.Value {
+						return x.Merge(types.WrapHash([]*types.HashEntry{types.WrapHashEntry(x.At(0).(*types.HashEntry).Key(), stale)}))
+					}},
+					der{"x.Merge({last key=>its value})", func() px.Value {
+						e := x.At(ln - 1).(*types.HashEntry)
+						return x.Merge(types.WrapHash([]*types.HashEntry{types.WrapHashEntry(e.Key(), e.Value())}))
+					}})
+			}
+		default:
+			continue
+		}
+		kx, okx := keyOf(it.a)
+		clean := it.d.clean()
+		for _, d := range ds {
+			var dv px.Value
+			if fault, err := guarded(func() { dv = d.f() }); fault != "" || err != "" {
+				// the operations themselves are the subject of C09
+				ck.res.Count("skipped.derive-rejected")
+				continue
+			}
+			var e1, e2 bool
+			f1, r1 := guarded(func() { e1 = it.a.Equals(dv, nil) })
+			f2, r2 := guarded(func() { e2 = dv.Equals(it.a, nil) })
+			ck.res.Evaluations += 2
+			n++
+			if f1 != "" || r1 != "" || f2 != "" || r2 != "" {
+				ck.violate("fault", fmt.Sprintf("x = %s, d = %s: x.Equals(d) or d.Equals(x) panics: %s%s%s%s", it.d, d.name, f1, r1, f2, r2), it.d)
+				continue
+			}
+			if e1 != e2 {
+				ck.violate("sym", fmt.Sprintf("x = %s, d = %s: x.Equals(d) = %v but d.Equals(x) = %v", it.d, d.name, e1, e2), it.d)
+			}
+			if kd, okd := keyOf(dv); okx && okd && clean && (kd == kx) != e1 {
+				ck.violate("key-iff-eq", fmt.Sprintf("x = %s, d = %s = %s: x.Equals(d) = %v but the hash keys are %q and %q", it.d, d.name, dv, e1, kx, kd), it.d)
+			}
+		}
+	}
+	ck.res.Extra["derived_values"] = n
 }
